@@ -33,6 +33,16 @@ var (
 )
 
 func genBytes(t *rapid.T) []byte {
+	if rapid.IntRange(0, 59).Draw(t, "bytesHuge") == 0 {
+		// around the 64 KiB chunks in which the library's decoder reads long blobs (and the 64 KiB pages of its buffers)
+		n := rapid.SampledFrom([]int{65535, 65536, 65537, 70000, 131071, 131072, 131073, 200000}).Draw(t, "bytesHugeLen")
+		seed := rapid.Byte().Draw(t, "bytesHugeSeed")
+		b := make([]byte, n)
+		for i := range b {
+			b[i] = seed + byte(i*7) + byte(i>>8)
+		}
+		return b
+	}
 	switch rapid.IntRange(0, 5).Draw(t, "bytesKind") {
 	case 0:
 		return []byte{}
